@@ -157,11 +157,13 @@ PROPS['C02'] = {
                'lemma_prefix_core', 'lemma_one_byte_changed', 'lemma_lrc_update', 'lemma_lrc_update2', 'lemma_lrc_moves', 'lemma_byte_change',
                'lemma_payload_of_view', 'lemma_roundtrip', 'lemma_enc_chars', 'lemma_enc_format', 'lemma_dec_strip', 'lemma_no_strip',
                'lemma_strip_appended', 'lemma_invalid_len', 'lemma_invalid_char', 'lemma_upper_hex_val_injective',
-               'lemma_shape_groups', 'lemma_group_names']}],
-    'tools': [{'kind': 'regexeq'}, {'kind': 'witness', 'domains': ['frame-decode'], 'bound': 'single-fault mutations (substitution by 14 bytes, deletion, duplication, swap, every prefix) at every position of 30 valid frames, with and without CRLF, plus the C03 enumeration'}],
+               'lemma_shape_groups', 'lemma_group_names']},
+              # the stream path: Frame::read returns dec(first line), so everything the lemmas say about dec holds for frames read from a port
+              {'tmpl': 'frame_io.rs.tmpl', 'obligations': ['Frame::read']}],
+    'tools': [{'kind': 'regexeq'}, {'kind': 'witness', 'domains': ['frame-decode', 'stream'], 'bound': 'stream: every single-fault damage (substitution by 8 structural / neighbouring bytes, deletion, duplication, swap, truncation) of 1000 low-entropy frames read through Frame::read from a fragmenting reader; frame-decode: single-fault mutations (substitution by 14 bytes, deletion, duplication, swap, every prefix) at every position of 30 valid frames, with and without CRLF, plus the C03 enumeration'}],
     'kani': [{'package': 'flipdot-core', 'harnesses': FRAME_KANI_CONTRACTS + [FRAME_KANI_BOUNDED[-2]]}],
     'functions': FRAME_FNS,
-    'assumptions': [A_USIZE, A_COW, A_INTO, A_REGEX, A_CHUNKS, A_SPEC, A_TOOLS, A_DEBUG],
+    'assumptions': [A_USIZE, A_COW, A_INTO, A_REGEX, A_CHUNKS, A_SPEC, A_TOOLS, A_DEBUG, 'for frames arriving through Frame::read the std::io contracts of C15 are assumed (A-std-io, contracts/io_standins.rs)'],
     'explanation': 'C02 = five lemmas over the codec specification (every position x every replacement byte; every deletion; every duplication; every adjacent transposition of unequal characters; every proper prefix — each for enc(f) and enc(f)+CRLF, for every frame with <= 255 data bytes), transferred to the real code by the contracts to_bytes == enc, to_bytes_with_newline == enc+CRLF and from_bytes == dec; second sentence: lemma_accepted_is_consistent + contract D.',
 }
 
@@ -356,7 +358,7 @@ PROPS['C08'] = {
 }
 
 # bounded native runs of the I/O-facing real code (never counted as proved)
-PROPS['C15']['tools'] = [{'kind': 'witness', 'domains': ['stream'], 'bound': '4000 rounds: 1..3 random frames back to back + 0..5 trailing bytes, random fragmentation (1..7 bytes per read), up to 3 Interrupted reads, a hard error at a random call in every third round; writes into a sink accepting 1..9 bytes per call with an Interrupted result and (every fourth round) a hard error'}]
+PROPS['C15']['tools'] = [{'kind': 'witness', 'domains': ['stream'], 'bound': '1000 low-entropy frames x every single-fault damage read through Frame::read (classification == reference decoding of the line, exactly the line consumed); 4000 rounds: 1..3 random frames back to back + 0..5 trailing bytes, random fragmentation (1..7 bytes per read), up to 3 Interrupted reads, a hard error at a random call in every third round; writes into a sink accepting 1..9 bytes per call with an Interrupted result and (every fourth round) a hard error'}]
 PROPS['C16']['tools'] = [{'kind': 'witness', 'domains': ['serial'], 'bound': '2 rounds x 14 message kinds x 5 reply frames: bytes written, reply returned, bytes consumed; 6 io::ErrorKinds injected at the write and at the read; 6 undecodable replies; elapsed time >= 30 ms / >= 100 ms on paced exchanges'}]
 PROPS['C18']['tools'] = PROPS['C16']['tools']
 PROPS['C17']['tools'] = [{'kind': 'witness', 'domains': ['bridge', 'serial-path'], 'bound': 'bridge: 40 conversations of 12 protocol messages interleaved with undecodable / unknown lines, bridge vs direct bus after every line; serial path: configure, send_pages, show, load-next, shut-down, reconfigure over controller -> serial bus -> byte stream -> bridge -> virtual bus vs the same operations directly on a virtual bus, 2 sign types x 2 flip styles'}]
